@@ -76,6 +76,10 @@ class Func:
             for d in self.node.decorator_list
         )
 
+    @property
+    def is_classmethod(self):
+        return any(isinstance(d, ast.Name) and d.id == "classmethod" for d in self.node.decorator_list)
+
     def __repr__(self):
         return f"<Func {self.qualname}>"
 
